@@ -12,6 +12,7 @@ RULE = ("each case takes two parts A and B (repository proteins, cut-outs, chime
         "Non-trivial: both parts have >= 2 titratable groups and >= 1 Coulomb determinant each; "
         "distinct = distinct (digest of A, digest of B, d)."
         " 25 % of the built cases run all four executions with a parameter file (common charge centres, shared determinants, penalised groups kept).")
+RULE = RULE + ' Round 13: parts with coupled groups under -d, and parts carrying (displaced) hydrogens under -k, each with one state of its own next to a part with alternate-location labels.'
 RULE = RULE + ' Round 8: 25 % of the unions are joined cat-style (MASTER / END / HEADER / CRYST1 records between the parts).'
 ASSUMPTIONS = ["parts taken from files are reduced to their first alternate location; alternate locations are then added "
                "under controlled labels (15 % of the built cases)"]
@@ -44,6 +45,11 @@ def generate(tier, seed):
     # groups must come out of every conformation of the union as they do alone (round 13, seeded change C05-w)
     for i in range(6 if tier == "quick" else 120):
         cases.append({"kind": "swapd", "d": DIST[i % len(DIST)], "seed": "%d:sd:%d" % (seed, i), "cost": 400 if i % 2 == 0 else 80})
+    # -k (hydrogens of the file are kept) on a part that carries hydrogens and has one state of its own, next to a
+    # part with alternate-location labels: the conformations the other part creates must hold this part's
+    # hydrogens too (round 13, seeded changes C05-x / C04-w)
+    for i in range(6 if tier == "quick" else 120):
+        cases.append({"kind": "keeph", "d": DIST[i % len(DIST)], "seed": "%d:kh:%d" % (seed, i), "cost": 80})
     return cases
 
 
@@ -223,6 +229,11 @@ def run_case(case, tier):
         else:
             b = sources.full_protein(case["other"])
         classes.append("near-tie-cluster")
+    elif case["kind"] == "keeph":
+        from .c15 import cluster_cutout
+        a = cluster_cutout(rng) if rng.random() < 0.5 else sources.random_small_structure(rng, 80, 500)
+        b = sources.random_small_structure(rng, 80, 500)
+        classes.append("kept-hydrogens-next-to-foreign-alt-locs")
     elif case["kind"] == "swapd":
         from .c15 import cluster_cutout
         a = sources.full_protein("1HPX.pdb") if case["cost"] > 100 else cluster_cutout(rng)
@@ -302,7 +313,16 @@ def run_case(case, tier):
         a = add_altlocs(a, altsets[0], rng)
         b = add_altlocs(b, altsets[1], rng)
         classes.append("alt-locs:%s/%s" % (altsets[0] or "-", altsets[1] or "-"))
-    if case["kind"] == "swapd" and sources.identities_unique(a) and sources.identities_unique(b):
+    if case["kind"] == "keeph":
+        # the part gets the hydrogens the program itself places on it, written into the file
+        probe = obs.run_single(pdbio.dump(a), write_pka=False, with_atoms=True)
+        if probe.exc or len(probe.rec["names"]) != 1:
+            return util.finish(case, viol, counts, classes, False, {"skipped": "probe"}, inconclusive="probe run of the part raised")
+        # (each moved by up to 0.06 A per coordinate: hydrogens the program would place anew differ from them)
+        a, nh, _ = sources.with_hydrogens(a, probe.rec["confs"][probe.rec["names"][0]]["hydrogens"],
+                                          moved=lambda xyz: tuple(int(round(v * 1000)) + rng.randrange(-60, 61) for v in xyz))
+        counts["hydrogens_written"] = nh
+    if case["kind"] in ("swapd", "keeph") and sources.identities_unique(a) and sources.identities_unique(b):
         altsets = ("", rng.choice(("AB", "ABC", "12")))
         b = add_altlocs(b, altsets[1], rng)
         classes.append("alt-locs:-/%s" % altsets[1])
@@ -393,6 +413,8 @@ def run_case(case, tier):
     xo = util.neutral_options(rng, families=("grid", "protonation", "keep", "swap-display"), classes=classes)
     if case["kind"] == "swapd":
         xo = ["-d"]
+    if case["kind"] == "keeph":
+        xo = ["-k"]
     if case["kind"] == "built" and rng.random() < 0.25:
         ov = {"common_charge_centre": rng.choice((1, 1, 0)), "shared_determinants": rng.choice((0, 1)),
               "remove_penalised_group": rng.choice((0, 1))}
